@@ -1,7 +1,7 @@
 (* Properties/C05.v — set similarity combines the pairwise matrix as funSimAvg / funSimMax / BMA (C05).
    Theorems about the Gallina transcription of src/matrix.rs and src/similarity.rs, for matrices of
    EVERY size, every element type / number structure and every (also asymmetric) similarity. *)
-From HpoV Require Import Model.Base Model.F32 Model.Matrix Model.Combine Spec.CombineSpec Run.C05 Proofs.C05P.
+From HpoV Require Import Model.Base Model.F32 Model.Matrix Model.Combine Spec.CombineSpec Run.C05 Proofs.C05P Proofs.C05M.
 
 (* Matrix::rows / Matrix::cols are exactly the index arithmetic of a row-major matrix *)
 Theorem C05_rows_are_index_arithmetic : forall (A : Type) (d : A) (m : matrix A),
@@ -47,6 +47,13 @@ Theorem C05_symmetric_order_independent : forall (F : Type) (fadd fdiv fmax : F 
     = ref_calc F fadd fdiv fmax fgt fzero fnzero ftwo f_of_u16 cmb (pairwise F f a b).
 Proof. exact symmetric_similarity_order_independent. Qed.
 
+(* THE TRANSCRIPTION MEETS THE EXECUTABLE STATEMENT ON EVERY MATRIX: what the check evaluates on the crate's
+   observation of the generated matrices (row / column maxima and the three combiners against the index
+   arithmetic of a row-major matrix) holds of the model for all dimensions and all data *)
+Theorem C05_model_meets_statement_on_matrices : forall r c data,
+  spec_C05 (CMat r c data) (run_C05 (CMat r c data)) = true.
+Proof. exact spec_C05_matrix_model. Qed.
+
 Print Assumptions C05_rows_are_index_arithmetic.
 Print Assumptions C05_cols_are_index_arithmetic.
 Print Assumptions C05_calculate_is_documented_formula.
@@ -55,3 +62,4 @@ Print Assumptions C05_pairwise_matrix.
 Print Assumptions C05_cache_transparent.
 Print Assumptions C05_empty_cache_ok.
 Print Assumptions C05_symmetric_order_independent.
+Print Assumptions C05_model_meets_statement_on_matrices.
